@@ -14,7 +14,8 @@ TITLE = 'Flank midpoints sit where the flank crosses its half-height'
 RULE = ('enum: every signal over the alphabet {-1,0,1} (quick, length 3..7) / {-2..2} (thorough, length 3..7) x every '
         'strictly increasing alternating peak/trough index sequence with >= 1 of each kind (both start kinds); '
         'pipeline: extrema produced by find_extrema (first_extrema in {peak, trough, None}) on generated signals; '
-        'raw: Hypothesis integer arrays up to length 60 with drawn alternating index subsets. Oracle: independent '
+        'raw: Hypothesis integer arrays up to length 60 with drawn alternating index subsets; thorough only: atheris / libFuzzer '
+        'coverage-guided fuzzing of the same check body (bytes -> integer array + alternating index subset, empty corpus). Oracle: independent '
         'per-flank model (level = mean of the two extremum voltages; crossing = sample i with x[i] on the start side '
         '(<= for rises, > for decays) and x[i+1] on the other; floor of the median; temporal centre start+len//2 when the '
         'flank is inverted, all-zero, or never crosses), exact equality; plus counts = number of trough->peak / '
@@ -171,6 +172,19 @@ def strat_pipeline(draw, tier):
             'first': draw(st.sampled_from(['peak', 'trough', None]))}
 
 
+def decode(fdp):
+    n = fdp.ConsumeIntInRange(3, 40)
+    amp = fdp.ConsumeIntInRange(1, 3)
+    x = [fdp.ConsumeIntInRange(-amp, amp) for _ in range(n)]
+    idx = [i for i in range(n) if fdp.ConsumeBool()]
+    if len(idx) < 2:
+        idx = [0, n - 1]
+    start_peak = fdp.ConsumeBool()
+    peaks = [i for j, i in enumerate(idx) if (j % 2 == 0) == start_peak]
+    troughs = [i for j, i in enumerate(idx) if (j % 2 == 0) != start_peak]
+    return {'x': x, 'peaks': peaks, 'troughs': troughs}
+
+
 PARTS = [
     Part('exhaustive', check_enum, enum=enum, shards={'quick': 12, 'thorough': 16}, exhaustive=True,
          time_cap={'quick': 200, 'thorough': 3000}),
@@ -178,4 +192,6 @@ PARTS = [
          shards={'quick': 4, 'thorough': 16}),
     Part('pipeline', check_pipeline, strategy=strat_pipeline, budget={'quick': 600, 'thorough': 30000},
          shards={'quick': 6, 'thorough': 16}),
+    Part('fuzz-atheris', check_enum, decode=decode, budget={'quick': 0, 'thorough': 3000000}, shards={'quick': 1, 'thorough': 12},
+         tiers=('thorough',), time_cap={'quick': 60, 'thorough': 1500}),
 ]
